@@ -16,6 +16,7 @@
 //   TT a dx dy dz         h[a].Translate  (integers)
 //   TR a rx ry rz         h[a].Rotate(90rx, 90ry, 90rz)
 //   TM a sx sy sz         h[a].Scale({sx,sy,sz}), s = +-1
+//   E kind code           an errored leaf (1: NaN vertex, 2: wrong faceID length) whose Status must be code
 //   K o n h1..hn          kernel only: Boolean3 pairwise on the forced operands
 //   C a / D a             copy / destroy a handle
 //   F a k                 force: k=0 Status(), 1 NumTri(), 2 GetMeshGL64()
@@ -256,6 +257,19 @@ static void runCase(const std::vector<std::string>& tok) {
         }
         cs.handles.emplace_back(std::move(r));
         if (n != 1) cs.reg(*cs.handles.back());
+      } else if (c == "E") {
+        // an errored leaf: kind 1 = a cube mesh with a NaN vertex (NonFiniteVertex), kind 2 = a cube mesh whose faceID
+        // vector has the wrong length (FaceIDWrongLength); the expected Status code is given and verified
+        MeshGL mg = Manifold::Cube({1.0, 1.0, 1.0}).GetMeshGL();
+        if (I(1) == 1)
+          mg.vertProperties[0] = NAN;
+        else {
+          mg.faceID.assign(mg.triVerts.size() / 3, 0);
+          mg.triVerts.resize(mg.triVerts.size() - 3);
+        }
+        cs.handles.emplace_back(Manifold(mg));
+        if ((int)cs.handles.back()->Status() != I(2)) throw std::runtime_error("errored leaf has another status");
+        cs.reg(*cs.handles.back());
       } else if (c == "K") {
         // kernel only: Boolean3 applied pairwise, left to right, on the forced
         // operands - no CsgOpNode is involved (used to tell a Boolean-kernel
